@@ -35,7 +35,7 @@ class C15(Prop):
     rule = ("shipped chains (from_name vs fold of the raw YAML files) + generated pairs / base chains (len<=4) / "
             "`+` folds over keys {a,b,c,*}^<=3 with every field kind incl. removed, with/without lua_versions; "
             "CLI: 1-3 `+` segments, each a chain of 1-3 yml files on disk over five global names (defined, removed or absent in each "
-            "file, files without globals included; struct-typed globals whose struct only the chain's last file defines), the set of names "
+            "file, files without globals included; one file of a project may be named like a built-in library; a two-file tail may be written `base: last+extra`; six runs name a library that does not exist and must be refused; struct-typed globals whose struct only the chain's last file defines), the set of names "
             "undefined_variable reports compared with the model's fold; "
             "non-trivial = the libraries share a key, or one marks a key removed, or both declare versions; "
             "distinct = distinct case descriptions")
